@@ -201,9 +201,21 @@ REval(f, j) == LET s == Stream(11 + FieldNo(f), j)  P == f[1]  d == f[2]
                    p |-> RPoly(P, IF j % 2 = 0 THEN 1 ELSE d, s, RLen(s, 0, RandLen)),
                    xs |-> RPoly(P, d, s + 1, 1 + (j % 7))]
 
+\* long polynomials (lengths around 32, 64, 128, odd and even, non-zero leading coefficient)
+LongEvalLens == <<31, 32, 33, 63, 64, 65, 127, 129>>
+REvalLong(f, j) == LET s == Stream(12 + FieldNo(f), j)  P == f[1]  d == f[2]
+                       db == IF j % 2 = 0 THEN 1 ELSE d
+                       n == LongEvalLens[j]
+                       r == RPoly(P, db, s, n)
+                       one == [i \in 1..db |-> IF i = 1 THEN 1 ELSE 0]
+                   IN [op |-> "evalr", P |-> P, db |-> db, de |-> d,
+                       p |-> [i \in 1..n |-> IF i = n /\ r[i] = [k \in 1..db |-> 0] THEN one ELSE r[i]],
+                       xs |-> RPoly(P, d, s + 1, 3)]
+
 Init ==
   /\ phase = 0
   /\ \/ case \in CEval
+     \/ \E f \in FieldsR, j \in 1..Len(LongEvalLens) : case = REvalLong(f, j)
      \/ \E f \in Fields :
           \/ case \in CArithF(f[1], f[2])  \/ case \in CScalF(f[1], f[2])   \/ case \in CDivF(f[1], f[2])
           \/ case \in CSynF(f[1], f[2])    \/ case \in CSynRF(f[1], f[2])   \/ case \in CInterpF(f[1], f[2])
